@@ -14,6 +14,7 @@ use crate::report::{Cfg, Report};
 
 pub fn dispatch(prop: &str, cfg: &Cfg) -> Option<Report> {
     Some(match prop {
+        "C01" => c01::run(cfg),
         "C02" => c02::run(cfg),
         "C03" => c03::run(cfg),
         "C04" => c04::run(cfg),
